@@ -77,6 +77,23 @@ def unwrapOpt {α : Type} : Option α → Res α
   | some a => .ok a
   | Option.none => .raise .type
 
+/-- the frozen dataclass `FieldMetadata`, field by field (the translator checks the field order of the class) -/
+structure FieldMetadata where
+  number : Nat
+  proto_type : PType
+  map_types : Option (PType × PType)
+  group : Option Nat
+  wraps : Option PType
+  optional : Bool
+  deriving DecidableEq, Repr
+/-- `dataclasses.field(default=d, metadata={"betterproto": m})` -/
+structure DField where
+  default : Val
+  metadata : FieldMetadata
+/-- the `FieldMetadata` half of a descriptor -/
+def metaOf (f : FieldD) : FieldMetadata :=
+  { number := f.num, proto_type := f.ty, map_types := mapTypes f, group := f.group, wraps := f.wraps, optional := f.optional }
+
 /-! ### sets of fields, dict helpers -/
 
 /-- `s.add(x)` -/
@@ -340,7 +357,7 @@ def valSetOnWire : Val → Val
   | v => v
 
 /-- the dataclass default of a field (`dataclass_field`: `None if optional else PLACEHOLDER`, tied in
-    `SrcTieMeta.dataclass_field_default`): what the class attribute holds, hence what a raw read finds
+    `C06.src_dataclass_field`): what the class attribute holds, hence what a raw read finds
     before anything was assigned -/
 def fieldDefault (f : FieldD) : Val := if f.optional then Val.none else Val.ph
 
